@@ -1185,3 +1185,78 @@ Proof.
   split; [exact E2|]. split; [exact E3|]. intros r. eapply gstep_req_other; [exact Hstep|].
   unfold concerns. rewrite Hr. discriminate.
 Qed.
+
+(** * A request moves on only after its gate result "proceed" *)
+
+Definition ResInv (h : trace) (s : gst) : Prop :=
+  forall r pc hw a, nget (g_req s) r = Some (PhDone pc hw a) ->
+                    exists e svc, In e h /\ e_k e = KGateResult r svc a.
+
+Lemma ResInv_step h s e s' : ResInv h s -> gstep s e = Some s' -> ResInv (e :: h) s'.
+Proof.
+  intros HI Hstep r pc hw a Hph.
+  destruct (concerns_dec r e) as [Hc|Hn].
+  2:{ rewrite (gstep_req_other _ _ _ _ Hstep Hn) in Hph. destruct (HI _ _ _ _ Hph) as (e0 & svc & Hin & Hk).
+      exists e0, svc. split; [now right|exact Hk]. }
+  unfold concerns, req_of in Hc. unfold gstep in Hstep.
+  destruct (e_k e) eqn:Hk; try discriminate.
+  - injection Hc as ->. unfold step_respond in Hstep.
+    destruct (nget (g_req s) r) as [[]|] eqn:E; try discriminate.
+    + destruct (match a0 with AStopped => _ | ATimedOut => _ | AProceed => _ end); [|discriminate].
+      injection Hstep as <-. rewrite get_set_req in Hph. discriminate.
+    + injection Hstep as <-. rewrite get_set_req in Hph. discriminate.
+  - injection Hc as ->. unfold step_path in Hstep.
+    destruct (nget (g_req s) r) as [[| | |? ? []|]|] eqn:E; try discriminate. injection Hstep as <-.
+    destruct (HI _ _ _ _ Hph) as (e0 & svc0 & Hin & Hk0). exists e0, svc0. split; [now right|exact Hk0].
+  - destruct (e_by e); try discriminate. injection Hc as ->. unfold step_read in Hstep.
+    destruct (nget (g_req s) r) eqn:E; [discriminate|]. destruct (_ && _); [|discriminate].
+    destruct st; try (injection Hstep as <-; rewrite get_set_req in Hph; discriminate).
+    destruct chan; [|discriminate]. injection Hstep as <-. rewrite get_set_req in Hph. discriminate.
+  - destruct (e_by e); try discriminate. injection Hc as ->. unfold step_wake in Hstep.
+    destruct (nget (g_req s) r) as [[]|] eqn:E; try discriminate. destruct (_ && _); [|discriminate].
+    injection Hstep as <-. rewrite get_set_req in Hph. discriminate.
+  - injection Hc as ->. unfold step_result in Hstep. destruct (e_by e); try discriminate.
+    destruct (Nat.eqb r r0); [|discriminate].
+    destruct (nget (g_req s) r) as [[]|] eqn:E; try discriminate.
+    + destruct (gaction_eqb a0 _); [|discriminate]. destruct (bind_pc s svc pc0) as [s1|]; [|discriminate].
+      injection Hstep as <-. rewrite get_set_req in Hph. injection Hph as _ _ <-.
+      exists e, svc. split; [now left|exact Hk].
+    + destruct (gaction_eqb a0 _); [|discriminate]. destruct (bind_pc s svc (h_pc h0)) as [s1|]; [|discriminate].
+      injection Hstep as <-. rewrite get_set_req in Hph. injection Hph as _ _ <-.
+      exists e, svc. split; [now left|exact Hk].
+  - injection Hc as ->. unfold step_path in Hstep.
+    destruct (nget (g_req s) r) as [[| | |? ? []|]|] eqn:E; try discriminate. injection Hstep as <-.
+    destruct (HI _ _ _ _ Hph) as (e0 & svc0 & Hin & Hk0). exists e0, svc0. split; [now right|exact Hk0].
+  - injection Hc as ->. unfold step_path in Hstep.
+    destruct (nget (g_req s) r) as [[| | |? ? []|]|] eqn:E; try discriminate. injection Hstep as <-.
+    destruct (HI _ _ _ _ Hph) as (e0 & svc0 & Hin & Hk0). exists e0, svc0. split; [now right|exact Hk0].
+  - injection Hc as ->. unfold step_path in Hstep.
+    destruct (nget (g_req s) r) as [[| | |? ? []|]|] eqn:E; try discriminate. injection Hstep as <-.
+    destruct (HI _ _ _ _ Hph) as (e0 & svc0 & Hin & Hk0). exists e0, svc0. split; [now right|exact Hk0].
+Qed.
+
+(** Pick, lb-claim, claim and claim-refused of a request come after its gate result "proceed". *)
+Theorem path_after_proceed pre e post s r :
+  run gstep ginit (pre ++ e :: post) = Some s -> is_path e = true -> req_of e = Some r ->
+  exists ev svc, In ev pre /\ e_k ev = KGateResult r svc AProceed.
+Proof.
+  intros Hrun Hp Hr. apply run_split in Hrun as (s1 & s2 & R1 & S & _).
+  assert (HI : ResInv (rev pre) s1).
+  { apply (run_inv gstep ginit ResInv) in R1; [exact R1|..].
+    - intros r0 pc hw a H. cbn in H. discriminate.
+    - intros h0 s0 e0 s0' H0 Hs. eapply ResInv_step; eassumption. }
+  assert (Hph : exists pc hw, nget (g_req s1) r = Some (PhDone pc hw AProceed)).
+  { unfold is_path in Hp. unfold req_of in Hr. unfold gstep in S.
+    destruct (e_k e) eqn:Hk; try discriminate; injection Hr as ->; unfold step_path in S;
+      destruct (nget (g_req s1) r) as [[| | |pc hw []|]|]; try discriminate; eauto. }
+  destruct Hph as (pc & hw & Hph). destruct (HI _ _ _ _ Hph) as (ev & svc & Hin & Hk).
+  exists ev, svc. split; [now apply in_rev|exact Hk].
+Qed.
+
+Lemma closer_not_paused h g st : closer h g = Some st -> st <> GPaused.
+Proof.
+  induction h as [|e h IH]; cbn [closer]; [discriminate|].
+  destruct (closer h g) as [st'|]; [intros H; injection H as <-; now apply IH|].
+  unfold is_close. destruct (e_k e); try discriminate. destruct chan as [g'|]; [|discriminate].
+  destruct (Nat.eqb g g'); [|discriminate]. destruct st0; try discriminate; intros H; injection H as <-; discriminate.
+Qed.
